@@ -244,6 +244,14 @@ def run(res):
                         res.violation("index-in-two-files", "one sample index is stored in two files", dict(hist, K=K), seen[K], f["name"])
                         return
                     seen[K] = f["name"]
+        # ... and every index the CALLER named in an accepted call is stored (in the file the layout names: checked above)
+        if ops is not None and reports is not None:
+            acc = wl.abs_of_history(cfg, ops, reports)
+            missing = sorted(K for K in acc if K not in seen)
+            if missing and all(r[0] in (0, 1) for r in reports):
+                res.violation("written-sample-not-stored", "an index named by the caller in an accepted call is stored in no file",
+                              dict(hist, K=missing[0]), "stored in the file of its period", "absent (%d indices)" % len(missing))
+                return
         res.count("block_histories_inspected")
     set_tz(rng.choice(TZS))
     wl.run_histories(res, 40 if res.tier == "quick" else 600, oracle)
